@@ -96,7 +96,7 @@ func init() {
 	register(&runner.Monitor{
 		ID:    "C04",
 		Level: "fault_enumeration",
-		Rule: "case = one generated write history executed by the real server code under strace; at every prefix just after an acknowledgement marker, just before/after every fsync of the WAL, after every global sync and WAL truncation and at the end of the log (thorough: at every prefix ending in a mutating call) the not-yet-synced writes are subjected to a bounded set of loss patterns (all lost; all of one file lost; only a time-prefix of one file's writes survives; one write lost alone; one write torn at 512-byte multiples or its midpoint; each with the file size shrinking or surviving as zeros); every distinct resulting tree is restarted with the real start-up and the acknowledged history must be returned; distinct = tree content hash",
+		Rule: "case = one generated write history executed by the real server code under strace; at every prefix just after an acknowledgement marker, just before/after every fsync of the WAL, just before/after every global sync, after every WAL truncation and at the end of the log (thorough: at every prefix ending in a mutating call) the not-yet-synced writes are subjected to a bounded set of loss patterns (all lost; all of one file lost; only a time-prefix of one file's writes survives; one write lost alone; one write torn at 512-byte multiples or its midpoint; each with the file size shrinking or surviving as zeros); every distinct resulting tree is restarted with the real start-up and the acknowledged history must be returned; distinct = tree content hash",
 		Assumptions: []string{crashAssumptions, "power-loss model: only file *data* written after the file's last fsync and after the last sync(2) may be lost or torn; create/mkdir/rename/unlink and explicit truncation are ordered and durable; sync(2) is taken at its word"},
 		Cases:        crashCases(3, 30),
 		Batch:        1,
